@@ -1292,6 +1292,15 @@ pub mod verif {
     pub use super::config::{MAX_BATCH_SIZE, MAX_MESSAGE_SIZE};
     pub use super::verif_schema::*;
 
+    /// The Bitswap event loop (`Bitswap::new(service, config).run()`) on a service that the
+    /// external harness feeds.
+    pub fn verif_bitswap_task(
+        service: TransportService,
+        config: Config,
+    ) -> futures::future::BoxFuture<'static, ()> {
+        Box::pin(super::Bitswap::new(service, config).run())
+    }
+
     /// [`super::block_to_response`] on a received `Block { prefix, data }`.
     pub fn block_to_response(peer: &PeerId, prefix: Vec<u8>, data: Vec<u8>) -> Option<ResponseType> {
         super::block_to_response(peer, schema::bitswap::Block { prefix, data })
